@@ -16,6 +16,10 @@ func unmarshalPoints(order byteOrder, data []byte) ([]orb.Point, error) {
 	num := unmarshalUint32(order, data)
 	data = data[4:]
 
+	if uint64(len(data)) < uint64(num)*16 { // num*16 below is computed in uint32 and wraps for num >= 2^28
+		return nil, ErrNotWKB
+	}
+
 	if len(data) < int(num*16) {
 		return nil, ErrNotWKB
 	}
